@@ -77,6 +77,7 @@ type lifeSess struct {
 	rids  map[*g.SrvReq]int
 	reqs  []*lreq
 	plans map[int]plan // by position in the order of arrival
+	relset map[int]bool // released before they arrived
 	parks []*park
 	takes []int
 	clock int64
@@ -150,6 +151,9 @@ func lifeHook(point string, args []interface{}) {
 			q := &lreq{rid: id, req: r, tag: r.Tc.Tag, typ: r.Tc.Type, oldtag: -1, gatec: make(chan bool)}
 			if p, ok := s.plans[id]; ok {
 				q.plan = p
+			}
+			if s.relset[id] {
+				close(q.gatec)
 			}
 			ot := "-"
 			if r.Tc.Type == g.Tflush {
@@ -429,14 +433,13 @@ func (o *lifeOps) ConnClosed(cn *g.Conn) {
 // release opens the gate of request rid (parked or asynchronous).
 func (s *lifeSess) release(rid int) {
 	s.mu.Lock()
-	var q *lreq
-	if rid < len(s.reqs) {
-		q = s.reqs[rid]
+	defer s.mu.Unlock()
+	if s.relset[rid] {
+		return
 	}
-	s.mu.Unlock()
-	if q != nil {
-		defer func() { recover() }() // released twice
-		close(q.gatec)
+	s.relset[rid] = true
+	if rid < len(s.reqs) {
+		close(s.reqs[rid].gatec)
 	}
 }
 
@@ -465,7 +468,7 @@ func newLifeSess(msize uint32, maxpend int, flushOp bool) *lifeSess {
 
 // connectLife opens one more connection to srv.
 func connectLife(srv *g.Srv, o *lifeOps, maxpend int) *lifeSess {
-	s := &lifeSess{srv: srv, ops: o, cap: maxpend, rids: map[*g.SrvReq]int{}, plans: map[int]plan{},
+	s := &lifeSess{srv: srv, ops: o, cap: maxpend, rids: map[*g.SrvReq]int{}, plans: map[int]plan{}, relset: map[int]bool{},
 		frc: make(chan int, 4096), rdone: make(chan bool)}
 	a, b := net.Pipe()
 	s.c = b
@@ -559,19 +562,29 @@ func (s *lifeSess) write(frames ...[]byte) error {
 	return err
 }
 
-// rpc sends one request and waits for one more frame.
+// rpc sends one request and waits for the next frame carrying its tag.
 func (s *lifeSess) rpc(tag uint16, pack func(fc *g.Fcall) error) *wframe {
 	n := s.nframes()
 	if err := s.write(s.send(tag, pack)); err != nil {
 		return nil
 	}
-	if !s.waitFrames(n+1, 10*time.Second) {
-		return nil
+	dl := time.Now().Add(10 * time.Second)
+	for time.Now().Before(dl) {
+		s.mu.Lock()
+		for i := n; i < len(s.fr); i++ {
+			if s.fr[i].tag == tag {
+				f := s.fr[i]
+				s.mu.Unlock()
+				return &f
+			}
+		}
+		s.mu.Unlock()
+		select {
+		case <-s.frc:
+		case <-time.After(time.Millisecond):
+		}
 	}
-	s.mu.Lock()
-	defer s.mu.Unlock()
-	f := s.fr[n]
-	return &f
+	return nil
 }
 
 func (s *lifeSess) setup(nfids int) bool {
